@@ -670,8 +670,84 @@ def check_reference_maps_repetitions(ctx, db):
     ctx.require('R-MUSTPASS reference collectors', n, 4)
 
 
+def check_extrema_model(ctx, db):
+    """Repetition::get_extrema and Repetition::get_offsets interpreted (sa/minieval) on small repetitions of every kind - lattices
+    with one and several rows / columns and spacings / vectors of both signs, explicit lists that are empty, single, ascending,
+    descending, all negative, with the extreme first or last, and 2-D lists whose y extreme is passed in x later on. Required: the
+    extreme offsets are members of the displacement set and span exactly its bounding box (the origin included), for a fresh
+    result array. Whatever loops, helpers and tests produce them."""
+    from .. import minieval as M
+    ex, of = db.fn('gdstk::Repetition::get_extrema'), db.fn('gdstk::Repetition::get_offsets')
+    ctx.touch(ex)
+    ctx.touch(of)
+    rt = {c['n']: c['v'] for c in db.enum(RT)['consts']}
+    V = lambda x, y: M.Obj(x=x, y=y)
+    cases = []
+    for cols, rows in ((1, 1), (1, 3), (3, 1), (2, 3), (3, 2)):
+        for sx, sy in ((2, 3), (-2, 3), (2, -3)):
+            cases.append(('Rectangular %dx%d spacing (%d, %d)' % (cols, rows, sx, sy), dict(type=rt['Rectangular'], columns=cols, rows=rows, spacing=V(sx, sy))))
+        for v1, v2 in (((2, 1), (-1, 3)), ((-2, -1), (1, -3)), ((2, 0), (0, 3)), ((1, 2), (3, 1))):
+            cases.append(('Regular %dx%d v1 %s v2 %s' % (cols, rows, v1, v2), dict(type=rt['Regular'], columns=cols, rows=rows, v1=V(*v1), v2=V(*v2))))
+    for cs in ([], [4], [-7, 2, 3], [9, 3, 1], [-6, -1, -3], [1, 5, 9], [3, -2], [5, 5], [2, -8, 6, -1]):
+        for kind in ('ExplicitX', 'ExplicitY'):
+            cases.append(('%s %s' % (kind, cs), dict(type=rt[kind], coords=cs)))
+    for os_ in ([], [(1, 1)], [(-5, -7), (-6, 0)], [(1, 1), (5, 9), (8, 2)], [(3, -4), (-2, 6), (7, 1)], [(-1, -1), (-2, -3)], [(2, 2), (2, 2)], [(4, 9), (6, -1), (-3, 2), (-8, -8)]):
+        cases.append(('Explicit %s' % os_, dict(type=rt['Explicit'], offsets=os_)))
+    bad = []
+
+    def run(fn, spec, prefill=0):
+        this = M.Obj(type=spec['type'])
+        for k_ in ('columns', 'rows', 'spacing', 'v1', 'v2'):
+            if k_ in spec:
+                this[k_] = M.Obj(spec[k_]) if isinstance(spec[k_], M.Obj) else spec[k_]
+        if 'coords' in spec:
+            this['coords'] = M.Obj(items=M.Ptr(list(spec['coords']), 0) if spec['coords'] else 0, count=len(spec['coords']), capacity=len(spec['coords']))
+        if 'offsets' in spec:
+            lst = [V(*p_) for p_ in spec['offsets']]
+            this['offsets'] = M.Obj(items=M.Ptr(lst, 0) if lst else 0, count=len(lst), capacity=len(lst))
+        pre = [V(90 + k_, 80 + k_) for k_ in range(prefill)]
+        res = M.Obj(items=M.Ptr(pre, 0) if pre else 0, count=len(pre), capacity=len(pre))
+        ref = [None]
+        mi = M.Mini(db, hook=M.array_hook(ref), budget=50000)
+        mi.obj_store = True
+        ref[0] = mi
+        if pre:
+            mi.writable.add(id(pre))
+        env = {'this': this, fn.params[0]['n']: res}
+        try:
+            mi.run(fn.body, env)
+        except M.Return:
+            pass
+        it = res.get('items', 0)
+        return [(it.arr[it.i + k_].get('x', 0), it.arr[it.i + k_].get('y', 0)) for k_ in range(res.get('count', 0))] if isinstance(it, M.Ptr) else []
+    for label, spec in cases:
+        try:
+            e_, o_ = run(ex, spec), run(of, spec)
+        except M.OutOfBounds as x_:
+            bad.append('%s: %s' % (label, x_))
+            continue
+        try:
+            o2 = run(of, spec, prefill=2)
+        except M.OutOfBounds as x_:
+            o2 = str(x_)
+        if o2 != [(90, 80), (91, 81)] + o_:
+            bad.append('%s: get_offsets on an array that already holds 2 entries leaves %s, expected them followed by %s' % (label, o2 if isinstance(o2, str) else o2[:6], o_[:4]))
+        if not o_:
+            if e_:
+                bad.append('%s: no displacement at all, but extrema %s' % (label, e_))
+            continue
+        box = lambda ps: (min(p_[0] for p_ in ps), min(p_[1] for p_ in ps), max(p_[0] for p_ in ps), max(p_[1] for p_ in ps))
+        if not e_ or box(e_) != box(o_) or any(p_ not in o_ for p_ in e_):
+            bad.append('%s: the displacements are %s (box %s), get_extrema gives %s%s' % (label, o_[:8], box(o_), e_, '' if not e_ or box(e_) == box(o_) else ' (box %s)' % (box(e_),)))
+    ctx.explored['valuations'] += 2 * len(cases)
+    ctx.check(not bad, 'R-CORNERS', 'Repetition::get_extrema/spans-the-displacements', ex.loc(), 'interpreted on %d repetitions: the extreme offsets are displacements and span the bounding box of all displacements' % len(cases),
+              'extreme offsets are wrong: ' + '; '.join(bad[:3]))
+    ctx.require('R-CORNERS repetitions interpreted', len(cases), 50)
+
+
 def run(ctx):
     db = ctx.db
+    ctx.attempt(check_extrema_model, ctx, db)
     ctx.attempt(check_reference_maps_repetitions, ctx, db)
     frozen = {('gdstk::Repetition::transform', 0): ['Rectangular', 'Regular', 'Explicit', 'ExplicitX', 'ExplicitY']}
     ns = 0
